@@ -70,3 +70,12 @@ Proof.
     destruct (all_some (map (coerce TStr) es)); reflexivity.
   - reflexivity.
 Qed.
+
+(* to_df() with its default index=True (the dimensions are the named levels of the index) *)
+Theorem C11_to_df_indexed_table_is_read_back :
+  forall (tds : list tdim) (vlab : ent) (venc : Qc -> ent) (rl : ent) (a : fQ) (lo hi : Z),
+  tds <> [] -> labels_ok tds vlab venc -> adims a = map td tds ->
+  items_unique (map td tds) -> length (avals a) = size (dshape (map td tds)) ->
+  convert true lo hi tds false false (index_table tds vlab venc rl a) = OValues (avals a).
+Proof. exact detect_roundtrip_index. Qed.
+Print Assumptions C11_to_df_indexed_table_is_read_back.
